@@ -207,8 +207,18 @@ int32_t chooseSkeSigAlgTls12(ssl_t *ssl, sslIdentity_t *id)
     {
         if (ssl->peerSigAlg != 0)
         {
-            /* Got signature_algorithms in ClientHello. */
-            sigAlgMask = ssl->peerSigAlg;
+            /* Got signature_algorithms in ClientHello: sign with an
+               algorithm the client offered and that is enabled for this
+               session (matrixSslSessOptsSetSigAlgs or the defaults). */
+            uint16_t ourMask = 0;
+            psSize_t i;
+
+            for (i = 0; i < ssl->supportedSigAlgsLen; i++)
+            {
+                ourMask |= HASH_SIG_MASK((ssl->supportedSigAlgs[i] >> 8) & 0xff,
+                        ssl->supportedSigAlgs[i] & 0xff);
+            }
+            sigAlgMask = ssl->peerSigAlg & ourMask;
         }
         else
         {
@@ -1354,6 +1364,7 @@ int32_t chooseSigAlgInt(int32_t certSigAlg,
         uint16_t peerSigAlgs)
 {
     int32 a = certSigAlg;
+    int32 base;
     psResSize_t hashLen;
 
 #ifndef USE_RSA
@@ -1413,6 +1424,7 @@ int32_t chooseSigAlgInt(int32_t certSigAlg,
     { /* unknown sigAlg; error on hashLen */
         return hashLen;
     }
+    base = a;
 
     /*
       For RSA signatures, RFC 5246 allows to pick any hash algorithm,
@@ -1434,10 +1446,18 @@ int32_t chooseSigAlgInt(int32_t certSigAlg,
             a = upgradeSigAlg(a, keyAlgorithm);
             if (!canUseSigAlg(a, keyAlgorithm, peerSigAlgs))
             {
-                /* Unable to upgrade insecure alg. Have to use the
-                   server cert sig alg. */
-                a = certSigAlg;
+                /* Unable to upgrade. The algorithm derived from the
+                   certificate is the last candidate - but only if our
+                   key can produce it and it is in the list we were
+                   given: signing with anything else would use an
+                   algorithm that was never negotiated. */
+                a = base;
                 psTraceIntInfo("Fallback to certificate sigAlg: %d\n", a);
+                if (!canUseSigAlg(a, keyAlgorithm, peerSigAlgs))
+                {
+                    psTraceInfo("No usable signature algorithm\n");
+                    return PS_UNSUPPORTED_FAIL;
+                }
             }
         }
     }
